@@ -169,10 +169,22 @@ Record fstate := {
   old_rng : ranges                             (* _old_config (range keys) *)
 }.
 
-(* [feats]: rtdc_ds.features_scalar (temporary features come and go; the data
-   of a feature never changes); [err]: the last operation raised ValueError *)
+(* [feats]: rtdc_ds.features_scalar (temporary features come and go);
+   [fcol]: which data column a feature currently has (set_temporary_feature
+   on an existing temporary feature replaces its data; default: the column
+   with the feature's own number);
+   [err]: the last operation raised ValueError;
+   [stale] is GHOST state (nothing in the code corresponds to it): the
+   features whose data were replaced and whose box filter has not been
+   recomputed since. The box cache carries no data hash; the documented remedy
+   is apply_filter(force=[feature]). The theorems are stated for histories
+   that end with [stale = []]. *)
 Record world := { cfg : config; reg : registry; flt : fstate;
-                  feats : list Z; err : bool }.
+                  feats : list Z; fcol : list (Z * Z); stale : list Z;
+                  err : bool }.
+
+Definition colof (fc : list (Z * Z)) (f : Z) : Z :=
+  match lookup f fc with Some c => c | None => f end.
 
 (* which of the three repairs of Filter.update are present *)
 Record variant := {
@@ -199,15 +211,18 @@ Inductive op :=
 | EditManual (i : Z) (b : bool)      (* ds.filter.manual[i] = b *)
 | AddFeat (f : Z)                    (* set_temporary_feature(ds, f, data) *)
 | DelFeat (f : Z)                    (* the temporary feature is deregistered *)
+| ReplaceTemp (f c : Z)              (* set_temporary_feature(ds, f, other data = column c) *)
 | Reset                              (* ds.reset_filter() *)
 | Apply (force : list Z).            (* ds.apply_filter(force) *)
 
 Section Filter.
   (* oracles *)
-  Variable hashf : Z -> bool -> Z.     (* PolygonFilter.hash of (axes+points, inverted) *)
+  (* PolygonFilter.hash of filter [id] with (axes+points = version v, inverted) *)
+  Variable hashf : Z -> Z -> bool -> Z.
   Variable choice : Z -> Z -> list Z.  (* seeded np.random.choice(arange(m), k, replace=False) *)
   (* the dataset *)
   Variable rows : list row.
+  Variable known : list Z.             (* dfn.scalar_feature_exists *)
   (* the code variant *)
   Variable vr : variant.
 
@@ -221,7 +236,7 @@ Section Filter.
 
   Definition init_world (reg0 : registry) (feats0 : list Z) : world :=
     {| cfg := default_config; reg := reg0; flt := reset_fstate;
-       feats := feats0; err := false |}.
+       feats := feats0; fcol := []; stale := []; err := false |}.
 
   (* --- Filter.update, part 0: which features must be refiltered ---------- *)
   (* for skey in cfg_cur.keys(): if cfg_cur[skey] != cfg_old.get(skey, None) *)
@@ -285,22 +300,24 @@ Section Filter.
     then map (fun x => if fisnan x then false else fle a x && fle x b) data
     else map (fun x => fle a x && fle x b) data.
 
-  Definition box_one (fs : list Z) (cur : ranges) (bf : list (Z * list bool)) (f : Z)
+  Definition box_one (fs : list Z) (fc : list (Z * Z)) (cur : ranges)
+             (bf : list (Z * list bool)) (f : Z)
     : list (Z * list bool) :=
     if memZ f fs then
       match rget cur f with
       | (Some lo, Some hi) =>
-          if fne lo hi then dict_set f (box_mask lo hi (col f)) bf
+          if fne lo hi then dict_set f (box_mask lo hi (col (colof fc f))) bf
           else dict_set f ones bf
       | _ => dict_set f ones bf
       end
     else bf.                 (* warning only *)
 
   (* --- part 1: invalid events --------------------------------------------- *)
-  Definition invalid_arr (fs : list Z) (rm : bool) : list bool :=
+  Definition invalid_arr (fs : list Z) (fc : list (Z * Z)) (rm : bool) : list bool :=
     if rm then
       fold_left (fun acc f =>
-                   band acc (map (fun x => negb (fisinf x || fisnan x)) (col f)))
+                   band acc (map (fun x => negb (fisinf x || fisnan x))
+                                 (col (colof fc f))))
                 fs ones
     else ones.
 
@@ -316,7 +333,7 @@ Section Filter.
 
   Definition poly_one (rg : registry) (pf : list (Z * (Z * list bool))) (id : Z) :=
     let '(v, inv) := reg_get rg id in
-    let h := hashf v inv in
+    let h := hashf id v inv in
     match lookup id pf with
     | Some (h', _) =>
         if h =? h' then pf else dict_set id (h, pfilter v inv) pf
@@ -324,10 +341,11 @@ Section Filter.
     end.
 
   (* --- part 4: limit events (downsampling.downsample_rand) ---------------- *)
-  Definition limit_events (a : list bool) (lim : Z) : list bool :=
+  Definition limit_events (a : list bool) (lim0 : Z) : list bool :=
     let m := count_true a in
     let sub := repeat true (Z.to_nat m) in                  (* arr_all[arr_all] *)
-    let idx :=
+    let lim := Z.min lim0 m in              (* min(cfg["limit events"], sub.size) *)
+    let idx :=                                              (* downsample_rand *)
       if negb (lim =? 0) && (lim <? m)
       then map (fun i => memZ i (choice m lim)) (zrange 0 (Z.to_nat m))
       else repeat true (Z.to_nat m) in
@@ -336,12 +354,13 @@ Section Filter.
 
   (* code before 2db14c2: the pairing check sits inside the loop, box filters
      of earlier features have been recomputed when it raises *)
-  Fixpoint box_seq (fs : list Z) (cur : ranges) (F : list Z) (bf : list (Z * list bool))
+  Fixpoint box_seq (fs : list Z) (fc : list (Z * Z)) (cur : ranges) (F : list Z)
+           (bf : list (Z * list bool))
     : list (Z * list bool) * bool :=
     match F with
     | [] => (bf, false)
     | f :: F' => if half_set cur f then (bf, true)
-                 else box_seq fs cur F' (box_one fs cur bf f)
+                 else box_seq fs fc cur F' (box_one fs fc cur bf f)
     end.
 
   (* _init_rtdc_ds: box filters of features that left the dataset are dropped *)
@@ -352,9 +371,10 @@ Section Filter.
     let c := cfg w in
     let s := flt w in
     let fs := feats w in
+    let fc := fcol w in
     let bf0 := prune_box fs (box_filters s) in
     let pf0 := prune_polys (polys c) (poly_filters s) in
-    let inval := invalid_arr fs (rm_invalid c) in
+    let inval := invalid_arr fs fc (rm_invalid c) in
     let f2f := feat2filter (see_removed vr) (late_feats vr) fs bf0
                            (rng c) (old_rng s) force in
     (* raise ValueError("Box filter: Please make sure that both ... are set!"):
@@ -365,7 +385,7 @@ Section Filter.
                    a_all := a_all s; a_box := a_box s; a_polygon := a_polygon s;
                    a_invalid := inval; manual := manual s;
                    old_rng := old_rng s |};
-         feats := fs; err := true |} in
+         feats := fs; fcol := fc; stale := stale w; err := true |} in
     let finish (bf : list (Z * list bool)) : world :=
       let box := fold_left band (map snd bf) ones in
       let pf := fold_left (poly_one (reg w)) (polys c) pf0 in
@@ -380,18 +400,24 @@ Section Filter.
                    a_all := all; a_box := box; a_polygon := polygon;
                    a_invalid := inval; manual := manual s;
                    old_rng := rng c |};
-         feats := fs; err := false |} in
-    if precheck vr then
+         feats := fs; fcol := fc;
+         (* ghost: refiltered or pruned features are fresh again *)
+         stale := filter (fun f => negb (memZ f f2f) && has_key f bf0) (stale w);
+         err := false |} in
+    (* raise ValueError("Unknown scalar feature name") *)
+    if existsb (fun f => negb (memZ f known)) force then raised bf0
+    else if precheck vr then
       if existsb (half_set (rng c)) f2f then raised bf0
-      else finish (fold_left (box_one fs (rng c)) f2f bf0)
+      else finish (fold_left (box_one fs fc (rng c)) f2f bf0)
     else
-      match box_seq fs (rng c) (sortZ f2f) bf0 with
+      match box_seq fs fc (rng c) (sortZ f2f) bf0 with
       | (bf, true) => raised bf
       | (bf, false) => finish bf
       end.
 
   Definition set_cfg (w : world) (c : config) : world :=
-    {| cfg := c; reg := reg w; flt := flt w; feats := feats w; err := false |}.
+    {| cfg := c; reg := reg w; flt := flt w; feats := feats w;
+       fcol := fcol w; stale := stale w; err := false |}.
 
   Definition set_rng (w : world) (rg : ranges) : world :=
     let c := cfg w in
@@ -413,12 +439,14 @@ Section Filter.
                      limit := limit c; polys := remove_first id (polys c) |}
     | ModPoly id v =>
         {| cfg := c; reg := dict_set id (v, snd (reg_get (reg w) id)) (reg w);
-           flt := flt w; feats := feats w; err := false |}
+           flt := flt w; feats := feats w; fcol := fcol w; stale := stale w;
+           err := false |}
     | InvertPoly id =>
         {| cfg := c;
            reg := dict_set id (fst (reg_get (reg w) id),
                                negb (snd (reg_get (reg w) id))) (reg w);
-           flt := flt w; feats := feats w; err := false |}
+           flt := flt w; feats := feats w; fcol := fcol w; stale := stale w;
+           err := false |}
     | SetInvalid b =>
         set_cfg w {| rng := rng c; rm_invalid := b; enable := enable c;
                      limit := limit c; polys := polys c |}
@@ -437,20 +465,26 @@ Section Filter.
                      manual := if (0 <=? i) then set_nth (Z.to_nat i) b (manual s)
                                else manual s;
                      old_rng := old_rng s |};
-           feats := feats w; err := false |}
+           feats := feats w; fcol := fcol w; stale := stale w; err := false |}
     | Reset =>
         (* Filter.reset(); config._init_default_filter_values(): the five
            default keys are overwritten, the range keys stay *)
         {| cfg := {| rng := rng c; rm_invalid := false; enable := true;
                      limit := 0; polys := [] |};
-           reg := reg w; flt := reset_fstate; feats := feats w; err := false |}
+           reg := reg w; flt := reset_fstate; feats := feats w;
+           fcol := fcol w; stale := []; err := false |}
     | AddFeat f =>
         {| cfg := c; reg := reg w; flt := flt w;
            feats := if memZ f (feats w) then feats w else feats w ++ [f];
-           err := false |}
+           fcol := fcol w; stale := stale w; err := false |}
     | DelFeat f =>
         {| cfg := c; reg := reg w; flt := flt w;
-           feats := filter (fun g => negb (g =? f)) (feats w); err := false |}
+           feats := filter (fun g => negb (g =? f)) (feats w);
+           fcol := fcol w; stale := stale w; err := false |}
+    | ReplaceTemp f c' =>
+        {| cfg := c; reg := reg w; flt := flt w;
+           feats := if memZ f (feats w) then feats w else feats w ++ [f];
+           fcol := dict_set f c' (fcol w); stale := f :: stale w; err := false |}
     | Apply force => update w force
     end.
 
@@ -461,31 +495,34 @@ Section Filter.
     let '(a, b) := if fgt lo hi then (hi, lo) else (lo, hi) in
     fle a x && fle x b.
 
-  Definition spec_feat (rg : ranges) (f : Z) (r : row) : bool :=
+  Definition spec_feat (fc : list (Z * Z)) (rg : ranges) (f : Z) (r : row) : bool :=
     match rget rg f with
-    | (Some lo, Some hi) => if fne lo hi then in_range lo hi (val r f) else true
+    | (Some lo, Some hi) =>
+        if fne lo hi then in_range lo hi (val r (colof fc f)) else true
     | _ => true
     end.
 
-  Definition spec_box_row (fs : list Z) (rg : ranges) (r : row) : bool :=
-    forallb (fun f => spec_feat rg f r) fs.
+  Definition spec_box_row (fs : list Z) (fc : list (Z * Z)) (rg : ranges) (r : row) : bool :=
+    forallb (fun f => spec_feat fc rg f r) fs.
 
-  Definition spec_invalid_row (fs : list Z) (rm : bool) (r : row) : bool :=
-    if rm then forallb (fun f => negb (fisnan (val r f) || fisinf (val r f))) fs
+  Definition spec_invalid_row (fs : list Z) (fc : list (Z * Z)) (rm : bool) (r : row) : bool :=
+    if rm then forallb (fun f => negb (fisnan (val r (colof fc f))
+                                       || fisinf (val r (colof fc f)))) fs
     else true.
 
   Definition spec_poly_row (rg : registry) (ids : list Z) (r : row) : bool :=
     forallb (fun id => xorb (snd (reg_get rg id)) (pin r (fst (reg_get rg id)))) ids.
 
-  Definition spec_box (w : world) := map (spec_box_row (feats w) (rng (cfg w))) rows.
+  Definition spec_box (w : world) :=
+    map (spec_box_row (feats w) (fcol w) (rng (cfg w))) rows.
   Definition spec_invalid (w : world) :=
-    map (spec_invalid_row (feats w) (rm_invalid (cfg w))) rows.
+    map (spec_invalid_row (feats w) (fcol w) (rm_invalid (cfg w))) rows.
   Definition spec_polygon (w : world) := map (spec_poly_row (reg w) (polys (cfg w))) rows.
 
   (* events that qualify: all range, polygon, invalid-value and manual criteria *)
   Definition spec_qual (w : world) : list bool :=
-    band (map (fun r => spec_box_row (feats w) (rng (cfg w)) r
-                        && spec_invalid_row (feats w) (rm_invalid (cfg w)) r
+    band (map (fun r => spec_box_row (feats w) (fcol w) (rng (cfg w)) r
+                        && spec_invalid_row (feats w) (fcol w) (rm_invalid (cfg w)) r
                         && spec_poly_row (reg w) (polys (cfg w)) r) rows)
          (manual (flt w)).
 
@@ -538,9 +575,10 @@ Definition dec_op (t : Z * list Z * list (Z * Z)) : list op :=
   else if tag =? 14 then [DelMin a0]
   else if tag =? 15 then [DelMax a0]
   else if tag =? 16 then [AddFeat a0]
-  else [DelFeat a0].
+  else if tag =? 17 then [DelFeat a0]
+  else [ReplaceTemp a0 a1].
 
-Definition mk_hash (v : Z) (b : bool) : Z := 2 * v + (if b then 1 else 0).
+Definition mk_hash (id v : Z) (b : bool) : Z := 2 * v + (if b then 1 else 0).
 
 Definition mk_choice (tab : list (Z * Z * list Z)) (m k : Z) : list Z :=
   match find (fun e => (fst (fst e) =? m) && (snd (fst e) =? k)) tab with
@@ -550,32 +588,46 @@ Definition mk_choice (tab : list (Z * Z * list Z)) (m k : Z) : list Z :=
 
 Definition enc_bools (l : list bool) : list Z := map (fun b : bool => if b then 1 else 0) l.
 
-(* observation after every Apply: all ++ box ++ polygon ++ invalid, or [9]
-   when it raised *)
-Fixpoint run_obs (hashf : Z -> bool -> Z) (choice : Z -> Z -> list Z)
-         (rows : list row) (vr : variant)
+(* observation after every Apply: [9] when it raised, else
+   mode 0: all ++ box ++ polygon ++ invalid of the filter object ++ [number of
+           stale features (ghost)];
+   mode 1: the SPECIFICATION of the settings before the application
+           (spec_all ++ spec_box ++ spec_polygon ++ spec_invalid), compared by
+           the harness with its stateless Python reference *)
+Fixpoint run_obs (mode : Z) (hashf : Z -> Z -> bool -> Z) (choice : Z -> Z -> list Z)
+         (rows : list row) (known : list Z) (vr : variant)
          (w : world) (ops : list op) : list Z :=
   match ops with
   | [] => []
   | o :: ops' =>
-      let w' := step hashf choice rows vr w o in
+      let w' := step hashf choice rows known vr w o in
       (match o with
        | Apply _ =>
-           if err w' then [9] else
-           enc_bools (a_all (flt w')) ++ enc_bools (a_box (flt w'))
-           ++ enc_bools (a_polygon (flt w')) ++ enc_bools (a_invalid (flt w'))
+           if err w' then [9]
+           else if mode =? 0 then
+             enc_bools (a_all (flt w')) ++ enc_bools (a_box (flt w'))
+             ++ enc_bools (a_polygon (flt w')) ++ enc_bools (a_invalid (flt w'))
+             ++ [Z.of_nat (length (stale w'))]
+           else
+             enc_bools (spec_all choice rows w) ++ enc_bools (spec_box rows w)
+             ++ enc_bools (spec_polygon rows w) ++ enc_bools (spec_invalid rows w)
        | _ => []
-       end) ++ run_obs hashf choice rows vr w' ops'
+       end) ++ run_obs mode hashf choice rows known vr w' ops'
   end.
 
-(* case = (code variant: number of repairs present, rows, feats, registry,
-   choice table, ops) *)
-Definition run_flat
-  (case : Z * list (list (Z * Z) * list bool) * list Z * list (Z * (Z * Z))
-          * list (Z * Z * list Z) * list (Z * list Z * list (Z * Z))) : list Z :=
-  let '(nv, rws, fts, rg, tab, tops) := case in
+(* case = (code variant: number of repairs present, rows, feats, known feature
+   numbers, registry, choice table, ops) *)
+Definition case_t : Type :=
+  Z * list (list (Z * Z) * list bool) * list Z * list Z * list (Z * (Z * Z))
+  * list (Z * Z * list Z) * list (Z * list Z * list (Z * Z)).
+
+Definition run_mode (mode : Z) (case : case_t) : list Z :=
+  let '(nv, rws, fts, kn, rg, tab, tops) := case in
   let rows := map dec_row rws in
   let reg0 := map (fun e : Z * (Z * Z) => (fst e, (fst (snd e), negb (snd (snd e) =? 0)))) rg in
-  run_obs mk_hash (mk_choice tab) rows
+  run_obs mode mk_hash (mk_choice tab) rows kn
           {| see_removed := 1 <=? nv; precheck := 2 <=? nv; late_feats := 3 <=? nv |}
           (init_world rows reg0 fts) (flat_map dec_op tops).
+
+Definition run_flat (case : case_t) : list Z := run_mode 0 case.
+Definition spec_flat (case : case_t) : list Z := run_mode 1 case.
